@@ -223,6 +223,8 @@ def convert(uni, hist, idx, obs_around_reopen=True, pal=None, storage=None, extr
             vclock = True
         elif k == "switch":
             out.append({"op": "switch", "cfg": {"cache": op["cache"], "async": op["async"], "thr": thr, "tmo_ms": tmo_ms}})
+            if n % 3 == 0:
+                out[-1]["what"] = "gz"      # the Create also asks for the opposite compression (ignored on an existing collection)
             vclock = True
         elif k == "drop":
             out.append({"op": "drop", "cfg": {"cache": op["cache"], "async": op["async"]}})
@@ -344,9 +346,17 @@ class RandGen:
         return {"op": "many", "batch": b, "csize": rng.choice([0, 0, 0, 1, 2, 3])}
 
 
+# custom schemas (harness: custom()): which fields get other constraints than their struct tags
+CUST_FIELDS = {1: ["A"], 2: ["U"], 3: ["V"], 4: ["F", "E"], 5: ["V", "Z"]}
+
+
 def random_test(uni, rng, idx, nops=40, nslots=8, p_reopen=0.06, p_batch=0.12, p_del=0.15, cfgs=None, pal=None, fields=None,
-                case_heavy=False, p_query=0.0, abandon=False, p_bad=0.0, max_chain=2):
+                case_heavy=False, p_query=0.0, abandon=False, p_bad=0.0, max_chain=2, cust=None):
     g = RandGen(uni, rng, pal=pal, fields=fields, case_heavy=case_heavy, nslots=nslots)
+    # three histories in eight run under a custom schema: "any subset of fields indexed / unique"
+    cust = rng.choice([0, 0, 0, 0, 0, 1, 2, 3, 4, 5]) if cust is None else cust
+    cf = CUST_FIELDS.get(cust, [])
+    g.flds = g.flds + [f for f in cf if f != "V" and f not in g.flds]
     c = rng.choice(cfgs) if cfgs else (rng.random() < 0.5, rng.random() < 0.35)
     ops = []
     for _ in range(nops):
@@ -375,7 +385,8 @@ def random_test(uni, rng, idx, nops=40, nslots=8, p_reopen=0.06, p_batch=0.12, p
                 ops[-1]["bad"] = rng.choice(["nan", "inf", "chan"])
                 ops[-1]["o"]["V"] = 2
                 ops[-1]["o"].pop("W", None)
-    return {"id": "rnd%d" % idx, "cfg": make_cfg(c[0], c[1], rng.randrange(len(STORAGE))), "ops": ops, "fields": ["K", "S"] + g.flds}
+    return {"id": "rnd%d" % idx, "cfg": dict(make_cfg(c[0], c[1], rng.randrange(len(STORAGE))), cust=cust), "ops": ops,
+            "fields": ["K", "S"] + g.flds + (["V"] if "V" in cf else [])}
 
 
 def with_aux(t, rng, p=0.25, nslots=4, nkeys=5):
@@ -558,6 +569,18 @@ def crash_test(uni, rng, idx, nops=3):
     return {"id": "cr%d" % idx, "cfg": sync_cfg(rng), "ops": small_history(uni, rng, nops=nops), "fields": ["K", "A"], "crash_all": True}
 
 
+def async_crash_test(uni, rng, idx, nops=4):
+    """C05 with asynchronous writes: the file-system steps happen in deletes, explicit flushes / commits and Close; every
+    call is crash-enumerated (a call without file-system step still yields the state 'the process dies here, writes pending')."""
+    ops = []
+    for o in small_history(uni, rng, nslots=2, nops=nops):
+        ops.append(o)
+        if rng.random() < 0.3:
+            ops.append({"op": "flush", "what": rng.choice(["all", "allcommit", "commit"])})
+    ops.append({"op": "reopen", "close": True, "create": rng.random() < 0.5})
+    return {"id": "acr%d" % idx, "cfg": make_cfg(rng.random() < 0.5, True, rng.randrange(len(STORAGE))), "ops": ops, "fields": ["K", "A"], "crash_all": True}
+
+
 def crashify(t):
     """Turn a model-generated test into a crash test (sync only)."""
     t = dict(t)
@@ -591,7 +614,10 @@ def damage_tests(uni, rng, limit=None, nslots=3):
                         ops.append({"op": "put", "slot": 9, "o": {"K": 16, "A": 5}})
                         ops.append({"op": "obs"})
                         ops.append({"op": "reopen", "close": True, "create": idx % 2 == 0})
-                        out.append({"id": "dm%d" % idx, "cfg": sync_cfg(idx), "ops": ops, "fields": ["K", "A", "O"]})
+                        # one database in three has asynchronous writes enabled (Close flushes before the damage; the persisted
+                        # setting is then in force for the handle that recovers)
+                        cfg = make_cfg(bool(idx % 2), True, (idx // 2) % 32) if ((idx * 2654435761) >> 7) % 3 == 0 else sync_cfg(idx % 64)
+                        out.append({"id": "dm%d" % idx, "cfg": cfg, "ops": ops, "fields": ["K", "A", "O"]})
                         idx += 1
     if limit and len(out) > limit:
         rng.shuffle(out)
@@ -735,7 +761,7 @@ def conc_test(uni, rng, idx, nthreads=3, nops=3, nslots=4, race=False, reopen=No
                 f = rng.choice(["K", "A", "V"])
                 p = {"K": 6 + rng.randrange(3), "A": 4 + rng.randrange(2), "V": 2}[f]
                 q = [{"f": f, "op": rng.choice(QOPS), "p": p}]
-                if race and rng.random() < 0.6:
+                if (race or hang) and rng.random() < 0.6:
                     f2 = rng.choice(["K", "A", "V"])
                     q.append({"f": f2, "op": rng.choice(QOPS), "p": {"K": 7, "A": 4, "V": 2}[f2], "conn": rng.choice(["and", "or"])})
                 ops.append({"op": "q", "q": q})
@@ -760,6 +786,36 @@ def conc_test(uni, rng, idx, nthreads=3, nops=3, nslots=4, race=False, reopen=No
     if race:
         t["norecord"] = True
     return t
+
+
+def reentry_tests(uni, rng, reps=150):
+    """C09: one reader repeating ONE kind of call many times against two writers, for every kind of reading call and every
+    configuration: a call that takes the read lock twice (directly or through a helper) blocks for good as soon as a writer
+    arrives between the two acquisitions - with enough repetitions that is certain in practice."""
+    cm = uni["casemul"]
+
+    def obj(slot, k):
+        return {"K": k, "S": (1 + (k - 5)) * cm, "A": 4 + slot % 2, "V": 2, "pl": 0}
+    q1 = lambda f, p: {"f": f, "op": ">=", "p": p}
+    kinds = {
+        "get": [{"op": "get", "slot": 1}], "exist": [{"op": "exist", "slot": 2}], "count": [{"op": "count"}], "all": [{"op": "all"}],
+        "q-indexed": [{"op": "q", "q": [q1("K", 6)]}], "q-unindexed": [{"op": "q", "q": [q1("V", 1)]}],
+        "and-indexed": [{"op": "q", "q": [q1("K", 6), dict(q1("A", 4), conn="and")]}],
+        "and-unindexed": [{"op": "q", "q": [q1("K", 6), dict(q1("V", 1), conn="and")]}],
+        "or-unindexed": [{"op": "q", "q": [q1("K", 6), dict(q1("V", 1), conn="or")]}],
+        "unindexed-and-unindexed": [{"op": "q", "q": [q1("V", 1), dict(q1("V", 2), conn="and")]}],
+        "aidx": [{"op": "aidx"}], "control": [{"op": "control"}], "flush": [{"op": "flush"}],
+        "delq": [{"op": "delq", "q": [{"f": "A", "op": "=", "p": 9}]}],
+    }
+    out = []
+    for name, ops in kinds.items():
+        for ci, c in enumerate([(False, False), (True, False), (False, True), (True, True)]):
+            setup = [{"op": "put", "slot": s, "o": obj(s, 5 + s)} for s in (1, 2, 3)]
+            w1 = [{"op": "put", "slot": 1 + i % 2, "o": obj(1 + i % 2, 6 + i % 2)} for i in range(reps)]
+            w2 = [{"op": "put", "slot": 3, "o": obj(3, 8)} for i in range(reps)]
+            out.append({"id": "re-%s-%d" % (name, ci), "cfg": make_cfg(c[0], c[1], (ci * 5) % len(STORAGE), thr=1, tmo_ms=100), "ops": setup,
+                        "threads": [ops * reps, w1, w2], "perturb": False, "yield": True, "reopen": ci % 2 == 1, "fields": ["K"], "norecord": True})
+    return out
 
 
 def index_order_tests(maxlen, field="A", base=4, nvals=4):
